@@ -34,8 +34,7 @@ func Import(fs afero.Fs) {
 	}, phttp.DefaultHTTP2GunConfig)
 
 	register.Gun("connect", func(conf phttp.GunConfig) func() core.Gun {
-		conf.Target, _ = phttp.PreResolveTargetAddr(&conf.Client, conf.Target)
-		conf.TargetResolved = conf.Target
+		conf.TargetResolved, _ = phttp.PreResolveTargetAddr(&conf.Client, conf.Target)
 		answLog := answlog.Init(conf.AnswLog.Path, conf.AnswLog.Enabled)
 		return func() core.Gun {
 			return phttp.WrapGun(phttp.NewConnectGun(conf, answLog))
